@@ -181,6 +181,9 @@ SCENARIOS.update({
     # the public is_registered(..., register_deferred=True) promotes a pending by-name printer itself: racing with a first print of that type
     'S16-public-is_registered-promotes-while-other-prints': ([[('call', _query_and_register_enum), (Color.RED, {})], [([Color.RED], {}), (Color.RED, {})]], (PKG,) + STDLIB_FILES, False),
     'S18-repr-that-reenters-pformat-vs-first-print': ([[(Reent(U), {}), ([Reent([1, 2])], {})], [(U, {}), (Color.RED, {})]], (PKG,), False),
+    # thread 0 wraps a short text while thread 1 wraps a text of 2100 DISTINCT words (any bounded memo of per-word measurements overflows meanwhile).
+    # Heavy: thread 0 is preempted only inside the string-measuring functions (see HEAVY), not at every line.
+    'S19-string-wrapping-vs-many-distinct-words': ([[('alpha beta gamma delta ' * 3, {'width': 20})], [(' '.join('w%d' % i for i in range(2100)), {'width': 40})]], (PKG,), False),
     'S17-public-is_registered-promotes-uuid-while-other-prints': ([[('call', _query_and_register_uuid)], [(U, {}), ([U], {})]], (PKG,), False),
 })
 OP_POOL = [
@@ -208,6 +211,10 @@ def scenario(name):
 
 SHARED_STATE_FUNCS = {'_repr_pretty', 'is_registered', 'register_pretty', 'register_pretty.<locals>.decorator', 'pretty_python_value', '_is_registered',
                       'singledispatch.<locals>.dispatch', 'singledispatch.<locals>.register', 'singledispatch.<locals>.wrapper', '_find_impl', '_compose_mro'}
+
+
+# scenarios whose second thread is expensive: only schedules that preempt thread 0 inside these functions (module-level state of the string printers)
+HEAVY = {'S19-string-wrapping-vs-many-distinct-words': {'escaped_len', 'str_to_lines', 'escape_str_for_quote', 'determine_quote_strategy'}}
 
 
 def run_item(item, out):
@@ -283,7 +290,7 @@ def schedule_child(arg):
     elif kind == 'at':
         policy = sched.PreemptAt({(a, k): t for a, k, t in spec[1]})
     elif kind == 'infunc':
-        policy = sched.PreemptInFunctions(spec[1], spec[2], SHARED_STATE_FUNCS, spec[3])
+        policy = sched.PreemptInFunctions(spec[1], spec[2], HEAVY[name] if name in HEAVY else SHARED_STATE_FUNCS, spec[3])
     elif kind == 'at+call':
         policy = sched.PreemptThenReturnAtCall(spec[1], spec[2], spec[3], spec[4])
     elif kind == 'random':
@@ -406,6 +413,10 @@ def run_shard(sh):
         if not refs[name]:
             continue
         rand = name.startswith('R:')
+        if name in HEAVY:
+            for nth in range(1, 400 if quick else 1200):
+                jobs.append((name, ('infunc', 0, 1, nth), None))
+            continue
         file_sets = [None]
         if not quick and STDLIB_FILES[0] not in files:
             file_sets.append((PKG,) + STDLIB_FILES)
@@ -610,7 +621,7 @@ def replay(wit):
 
 
 TECHNIQUE = 'deterministic thread scheduler on sys.monitoring LINE events (baton passing, cooperative locks), exhaustive single-preemption schedules in forked interpreters, sequential-consistency oracle'
-LEVEL_TEXT = ('Schedules with one preemption at a package line boundary (both role assignments; exhaustive for the short first-use scenarios, strided for the long ones) of seventeen fixed 2-3 thread scenarios '
+LEVEL_TEXT = ('Schedules with one preemption at a package line boundary (both role assignments; exhaustive for the short first-use scenarios, strided for the long ones) of eighteen fixed 2-3 thread scenarios (one of them "heavy": preemption only inside the string-measuring functions) '
               '(first use of lazily registered types, user registrations / printer replacement / set_default_config racing with prints) and of seeded random scenarios from an operation pool are executed '
               'deterministically, each in a fresh fork with an intact deferred registry; plus "preempt anywhere, switch back at the other thread\'s call boundaries", two-preemption and random-priority schedules, '
               'and a stress sub-run with real threads and the real lock. Every call\'s result must equal that of some sequential order of the individual calls and nothing may raise or deadlock.')
